@@ -1,9 +1,883 @@
-(* CssParse.v -- STUB (to be replaced by the transcription of css/parser.rs). *)
+(* CssParse.v -- transcription of src/css/parser.rs (nom 7 combinators) and of the
+   stylesheet glue in src/css.rs (styles_from_properties, do_add_css, dom_to_stylesheet,
+   inline style attributes).  Only the code point of a character matters for parsing;
+   the harness-supplied cw/ws travel with the characters of content strings. *)
 From H2T Require Import Base Tagged Wrap Css Dom.
+
+(* parser results: POk value rest | PFail (nom Err::Error) | PPanic | PFuel *)
+Inductive pr (A : Type) := POk (a : A) (rest : text) | PFail | PPanic (site : N) | PFuel.
+Arguments POk {A}. Arguments PFail {A}. Arguments PPanic {A}. Arguments PFuel {A}.
+
+Definition pbind {A B} (r : pr A) (f : A -> text -> pr B) : pr B :=
+  match r with
+  | POk a rest => f a rest
+  | PFail => PFail
+  | PPanic s => PPanic s
+  | PFuel => PFuel
+  end.
+Notation "'pdo' ( x , r ) <- e ; k" := (pbind e (fun x r => k))
+  (at level 200, x pattern, r pattern, e at level 100, k at level 200, right associativity).
+
+Definition pmap {A B} (f : A -> B) (r : pr A) : pr B :=
+  match r with POk a rest => POk (f a) rest | PFail => PFail | PPanic s => PPanic s | PFuel => PFuel end.
+
+(* alt: try q when p fails recoverably *)
+Definition palt {A} (p : pr A) (q : unit -> pr A) : pr A :=
+  match p with PFail => q tt | other => other end.
+Definition popt {A} (p : pr A) (t : text) : pr (option A) :=
+  match p with
+  | POk a rest => POk (Some a) rest
+  | PFail => POk None t
+  | PPanic s => PPanic s
+  | PFuel => PFuel
+  end.
+
+(* tag *)
+Fixpoint ptag (lit : list N) (t : text) : pr unit :=
+  match lit with
+  | [] => POk tt t
+  | x :: lit' => match t with
+                 | c :: t' => if cp c =? x then ptag lit' t' else PFail
+                 | [] => PFail
+                 end
+  end.
+Definition starts_with (lit : list N) (t : text) : option text :=
+  match ptag lit t with POk _ r => Some r | _ => None end.
+
+(* many0 / many1 with nom's no-progress error; fuel = input length + 1 *)
+Fixpoint many0_f {A} (fuel : nat) (p : text -> pr A) (t : text) (acc : list A) : pr (list A) :=
+  match fuel with
+  | O => PFuel
+  | S f =>
+    match p t with
+    | PFail => POk (rev acc) t
+    | PPanic s => PPanic s
+    | PFuel => PFuel
+    | POk a rest =>
+      if Nat.eqb (length rest) (length t) then PFail
+      else many0_f f p rest (a :: acc)
+    end
+  end.
+Definition many0 {A} (p : text -> pr A) (t : text) : pr (list A) := many0_f (S (length t)) p t [].
+Definition many1 {A} (p : text -> pr A) (t : text) : pr (list A) :=
+  match p t with
+  | PFail => PFail
+  | PPanic s => PPanic s
+  | PFuel => PFuel
+  | POk a rest => many0_f (S (length rest)) p rest [a]
+  end.
+
+(* separated_list0 *)
+Fixpoint sep_list_f {A B} (fuel : nat) (sep : text -> pr B) (p : text -> pr A) (t : text)
+         (acc : list A) : pr (list A) :=
+  match fuel with
+  | O => PFuel
+  | S f =>
+    match sep t with
+    | PFail => POk (rev acc) t
+    | PPanic s => PPanic s
+    | PFuel => PFuel
+    | POk _ t1 =>
+      if Nat.eqb (length t1) (length t) then PFail
+      else match p t1 with
+           | PFail => POk (rev acc) t
+           | PPanic s => PPanic s
+           | PFuel => PFuel
+           | POk a t2 => sep_list_f f sep p t2 (a :: acc)
+           end
+    end
+  end.
+Definition separated_list0 {A B} (sep : text -> pr B) (p : text -> pr A) (t : text) : pr (list A) :=
+  match p t with
+  | PFail => POk [] t
+  | PPanic s => PPanic s
+  | PFuel => PFuel
+  | POk a t1 => sep_list_f (S (length t1)) sep p t1 [a]
+  end.
+
+(* ---------- lexical helpers ---------- *)
+Definition is_css_ws (x : N) : bool :=
+  (x =? 32) || (x =? 9) || (x =? 13) || (x =? 10) || (x =? 12).
+Definition is_digit (x : N) : bool := (48 <=? x) && (x <=? 57).
+Definition is_lower (x : N) : bool := (97 <=? x) && (x <=? 122).
+Definition is_upper (x : N) : bool := (65 <=? x) && (x <=? 90).
+Definition is_hex (x : N) : bool :=
+  is_digit x || ((97 <=? x) && (x <=? 102)) || ((65 <=? x) && (x <=? 70)).
+Definition hex_val (x : N) : N :=
+  if is_digit x then x - 48 else if (97 <=? x) then x - 87 else x - 55.
+Definition lower_chr (c : chr) : chr :=
+  if is_upper (cp c) then mkchr (cp c + 32) (cw c) (ws c) (lab c) else c.
+
+(* take_until "*/" *)
+Fixpoint take_until_star_slash (t : text) : option text :=
+  match t with
+  | [] => None
+  | c :: t' =>
+    match t' with
+    | d :: _ => if (cp c =? 42) && (cp d =? 47) then Some t else take_until_star_slash t'
+    | [] => None
+    end
+  end.
+
+Definition match_comment (t : text) : pr unit :=
+  pdo (_, r1) <- ptag [47; 42] t;
+  match take_until_star_slash r1 with
+  | None => PFail
+  | Some r2 => ptag [42; 47] r2
+  end.
+Definition match_whitespace_item (t : text) : pr unit :=
+  match t with
+  | c :: t' => if is_css_ws (cp c) then POk tt t' else match_comment t
+  | [] => match_comment t
+  end.
+Definition skip_ws (t : text) : text :=
+  match many0 match_whitespace_item t with POk _ r => r | _ => t end.
+Definition skip_optional_whitespace (t : text) : pr unit := POk tt (skip_ws t).
+
+Definition nmstart_char (t : text) : pr chr :=
+  match t with
+  | c :: t' => if (cp c =? 95) || is_lower (cp c) || is_upper (cp c) then POk (lower_chr c) t' else PFail
+  | [] => PFail
+  end.
+Definition nmchar_char (t : text) : pr chr :=
+  match t with
+  | c :: t' => if (cp c =? 95) || is_lower (cp c) || is_upper (cp c) || is_digit (cp c) || (cp c =? 45)
+               then POk (lower_chr c) t' else PFail
+  | [] => PFail
+  end.
+
+(* the scan over the characters after the first hex digit in ident_escape: returns the
+   number of hex digits used (end_idx - start_idx) *)
+Fixpoint esc_scan (t : text) (k : nat) : option nat :=
+  match t with
+  | [] => None                              (* loop ran off the end: end_idx stays i + 1 *)
+  | c :: t' => if is_hex (cp c) && Nat.ltb k 6 then esc_scan t' (S k) else Some k
+  end.
+Definition ident_escape (t : text) : pr chr :=
+  pdo (_, rest) <- ptag [92] t;
+  match rest with
+  | [] => POk (mkchr 65533 (Some 1) false 0) rest
+  | c :: rest' =>
+    if is_hex (cp c) then
+      let n := match esc_scan rest' 1 with Some k => k | None => 1%nat end in
+      let digits := firstn n rest in
+      let val := fold_left (fun acc d => acc * 16 + hex_val (cp d)) digits 0 in
+      let ok := (val <? 55296) || ((57343 <? val) && (val <=? 1114111)) in
+      POk (mkchr (if ok then val else 65533) (Some 1) false 0) (skipn n rest)
+    else POk c rest'
+  end.
+Definition nmstart (t : text) : pr chr := palt (nmstart_char t) (fun _ => ident_escape t).
+Definition nmchar (t : text) : pr chr := palt (nmchar_char t) (fun _ => ident_escape t).
+
+Definition dash : chr := mk 45 1.
+Definition parse_ident (t : text) : pr text :=
+  let r0 := skip_ws t in
+  pdo (d, r1) <- popt (ptag [45] r0) r0;
+  pdo (st, r2) <- nmstart r1;
+  pdo (cs, r3) <- many0 nmchar r2;
+  POk ((match d with Some _ => [dash] | None => [] end) ++ st :: cs) r3.
+Definition parse_identstring (t : text) : pr text := many1 nmchar (skip_ws t).
+
+(* ---------- tokens ---------- *)
+Inductive token :=
+| TIdent (s : text) | TFunction (s : text) | TAtKeyword (s : text) | THash (s : text)
+| TString (s : text) | TBadString (s : text) | TDelim (c : N)
+| TNumber (s : text) | TDimension (n u : text) | TPercentage (n : text)
+| TCDO | TCDC | TColon | TSemicolon | TComma
+| TOpenSquare | TCloseSquare | TOpenRound | TCloseRound | TOpenBrace | TCloseBrace.
+
+Fixpoint digit1 (t : text) (acc : text) : pr text :=
+  match t with
+  | c :: t' => if is_digit (cp c) then digit1 t' (c :: acc)
+               else match acc with [] => PFail | _ => POk (rev acc) t end
+  | [] => match acc with [] => PFail | _ => POk (rev acc) t end
+  end.
+Fixpoint digit0 (t : text) (acc : text) : text * text :=
+  match t with
+  | c :: t' => if is_digit (cp c) then digit0 t' (c :: acc) else (rev acc, t)
+  | [] => (rev acc, t)
+  end.
+
+(* parse_number: the value is used only through `== 0.0`; we return (is_zero, negative).
+   MODELLING LIMIT: a non-zero literal smaller than f32's least subnormal is not zero here. *)
+Definition all_zero_digits (t : text) : bool := forallb (fun c => negb (is_digit (cp c)) || (cp c =? 48)) t.
+Definition parse_number (t : text) : pr bool :=
+  let r0 := skip_ws t in
+  pdo (_sgn, r1) <- popt (palt (ptag [45] r0) (fun _ => ptag [43] r0)) r0;
+  palt (pmap all_zero_digits (digit1 r1 []))
+       (fun _ =>
+          let '(d0, r2) := digit0 r1 [] in
+          pdo (_, r3) <- ptag [46] r2;
+          pdo (d1, r4) <- digit1 r3 [];
+          POk (all_zero_digits (d0 ++ d1)) r4).
+(* recognize(parse_number): the consumed slice *)
+Definition recognize_number (t : text) : pr text :=
+  match parse_number t with
+  | POk _ rest => POk (firstn (length t - length rest) t) rest
+  | PFail => PFail | PPanic s => PPanic s | PFuel => PFuel
+  end.
+
+Definition parse_numeric_token (t : text) : pr token :=
+  pdo (num, rest) <- recognize_number t;
+  match ptag [37] rest with
+  | POk _ rp => POk (TPercentage num) rp
+  | _ =>
+    match parse_ident rest with
+    | POk dim rid => POk (TDimension num dim) rid
+    | PPanic s => PPanic s
+    | PFuel => PFuel
+    | PFail => POk (TNumber num) rest
+    end
+  end.
+
+Definition parse_ident_like (t : text) : pr token :=
+  pdo (ident, rest) <- parse_ident t;
+  match ptag [40] rest with
+  | POk _ rf => POk (TFunction ident) rf
+  | _ => POk (TIdent ident) rest
+  end.
+
+Fixpoint string_loop (t : text) (end_char : N) (acc : text) : pr token :=
+  match t with
+  | [] => POk (TString (rev acc)) []
+  | c :: t' =>
+    if cp c =? end_char then POk (TString (rev acc)) t'
+    else if cp c =? 10 then POk (TBadString (rev acc)) t
+    else if cp c =? 92 then
+      match t' with
+      | [] => POk (TString (rev acc)) []
+      | d :: t'' => if cp d =? 10 then string_loop t'' end_char acc
+                    else string_loop t'' end_char (d :: acc)
+      end
+    else string_loop t' end_char (c :: acc)
+  end.
+Definition parse_string_token (t : text) : pr token :=
+  match t with
+  | c :: t' => string_loop t' (cp c) []
+  | [] => PPanic 52
+  end.
+
+Definition is_ident_start (x : N) : bool :=
+  is_lower x || is_upper x || (x =? 95) || (129 <=? x).
+
+Definition parse_token (t : text) : pr token :=
+  let rest := skip_ws t in
+  match rest with
+  | [] => PFail
+  | c :: r1 =>
+    let x := cp c in
+    if (x =? 34) || (x =? 39) then parse_string_token rest
+    else if x =? 35 then
+      match parse_identstring r1 with
+      | POk id r => POk (THash id) r
+      | PPanic s => PPanic s
+      | PFuel => PFuel
+      | PFail => POk (TDelim 35) rest          (* sic: '#' is not consumed *)
+      end
+    else if x =? 59 then POk TSemicolon r1
+    else if x =? 40 then POk TOpenRound r1
+    else if x =? 41 then POk TCloseRound r1
+    else if x =? 43 then
+      match parse_numeric_token r1 with
+      | PFail => POk (TDelim 43) r1
+      | other => other
+      end
+    else if x =? 44 then POk TComma r1
+    else if x =? 45 then
+      match parse_numeric_token rest with
+      | PFail =>
+        match starts_with [45; 45; 62] rest with
+        | Some rc => POk TCDC rc
+        | None =>
+          match parse_ident_like rest with
+          | PFail => POk (TDelim 45) r1
+          | other => other
+          end
+        end
+      | other => other
+      end
+    else if x =? 46 then
+      match parse_numeric_token rest with
+      | PFail => POk (TDelim 46) r1
+      | other => other
+      end
+    else if x =? 58 then POk TColon r1
+    else if x =? 60 then
+      match starts_with [60; 33; 45; 45] rest with
+      | Some rc => POk TCDO rc
+      | None => POk (TDelim 60) r1
+      end
+    else if x =? 64 then
+      match parse_ident rest with
+      | POk id r => POk (TAtKeyword id) r
+      | PPanic s => PPanic s
+      | PFuel => PFuel
+      | PFail => POk (TDelim 64) r1
+      end
+    else if x =? 91 then POk TOpenSquare r1
+    else if x =? 92 then
+      match parse_ident_like rest with
+      | PFail => POk (TDelim 92) r1
+      | other => other
+      end
+    else if x =? 93 then POk TCloseSquare r1
+    else if x =? 123 then POk TOpenBrace r1
+    else if x =? 125 then POk TCloseBrace r1
+    else if is_ident_start x then parse_ident_like rest
+    else if is_digit x then parse_numeric_token rest
+    else POk (TDelim x) r1
+  end.
+
+Definition is_semicolon (k : token) : bool := match k with TSemicolon => true | _ => false end.
+Definition parse_token_not_semicolon (t : text) : pr token :=
+  match parse_token t with
+  | POk tok rest => if is_semicolon tok then PFail else POk tok rest
+  | other => other
+  end.
+
+Definition s_important : list N := [105;109;112;111;114;116;97;110;116].
+Definition ends_important (toks : list token) : bool :=
+  match rev toks with
+  | TIdent x :: TDelim 33 :: _ => is_ascii_str x s_important
+  | _ => false
+  end.
+Definition parse_value (t : text) : pr (list token * bool) :=
+  pdo (toks, rest) <- many0 parse_token_not_semicolon t;
+  if ends_important toks
+  then POk (removelast (removelast toks), true) rest
+  else POk (toks, false) rest.
+
+(* ---------- declarations ---------- *)
+Inductive overflow_v := OvVisible | OvHidden | OvScroll | OvAuto.
+Inductive decl :=
+| DColor (r g b : N)
+| DBackgroundColor (r g b : N)
+| DHeight (zero : bool)
+| DMaxHeight (zero : bool)
+| DOverflow (v : overflow_v)
+| DOverflowY (v : overflow_v)
+| DDisplay (none : bool)
+| DWhiteSpace (m : wsmode)
+| DContent (t : text)
+| DUnknown.
+Record declaration := mkdecl { d_data : decl; d_important : bool }.
+
+Definition named_colours : list (list N * (N * N * N)) :=
+  [ ([97;113;117;97], (0, 255, 255));
+    ([98;108;97;99;107], (0, 0, 0));
+    ([98;108;117;101], (0, 0, 255));
+    ([102;117;99;104;115;105;97], (255, 0, 255));
+    ([103;114;97;121], (128, 128, 128));
+    ([103;114;101;101;110], (0, 128, 0));
+    ([108;105;109;101], (0, 255, 0));
+    ([109;97;114;111;111;110], (128, 0, 0));
+    ([110;97;118;121], (0, 0, 128));
+    ([111;108;105;118;101], (128, 128, 0));
+    ([111;114;97;110;103;101], (255, 165, 0));
+    ([112;117;114;112;108;101], (128, 0, 128));
+    ([114;101;100], (255, 0, 0));
+    ([115;105;108;118;101;114], (192, 192, 192));
+    ([116;101;97;108], (0, 128, 128));
+    ([119;104;105;116;101], (255, 255, 255));
+    ([121;101;108;108;111;119], (255, 255, 0)) ].
+
+Fixpoint lookup_colour (s : text) (l : list (list N * (N * N * N))) : option (N * N * N) :=
+  match l with
+  | [] => None
+  | (n, c) :: l' => if is_ascii_str s n then Some c else lookup_colour s l'
+  end.
+
+(* str::parse::<u8>(): optional '+', ASCII digits, value <= 255 *)
+Definition parse_u8_dec (t : text) : option N :=
+  let body := match t with c :: t' => if cp c =? 43 then t' else t | [] => t end in
+  match body with
+  | [] => None
+  | _ => match parse_digits body 0 with
+         | Some n => if n <=? 255 then Some n else None
+         | None => None
+         end
+  end.
+(* uN::from_str_radix(s, 16): optional '+' (when followed by something), hex digits *)
+Fixpoint parse_hex_digits (t : text) (acc : N) : option N :=
+  match t with
+  | [] => Some acc
+  | c :: t' => if is_hex (cp c) then parse_hex_digits t' (acc * 16 + hex_val (cp c)) else None
+  end.
+Definition parse_hex (maxv : N) (t : text) : option N :=
+  match t with
+  | [] => None
+  | [c] => if is_hex (cp c) then Some (hex_val (cp c)) else None
+  | c :: t' =>
+    let body := if cp c =? 43 then t' else t in
+    match parse_hex_digits body 0 with
+    | Some n => if n <=? maxv then Some n else None
+    | None => None
+    end
+  end.
+
+Definition s_rgb : list N := [114;103;98].
+
+Definition parse_color (toks : list token) : option (N * N * N) :=
+  match toks with
+  | [TIdent c] => lookup_colour c named_colours
+  | [THash s] =>
+    if utf8_len s =? 3 then
+      match parse_hex 4294967295 s with
+      | Some v => Some ((((v / 256) mod 16) * 17) mod 256, (((v / 16) mod 16) * 17) mod 256,
+                        ((v mod 16) * 17) mod 256)
+      | None => None
+      end
+    else if utf8_len s =? 6 then
+      match parse_hex 4294967295 s with
+      | Some v => Some ((v / 65536) mod 256, (v / 256) mod 256, v mod 256)
+      | None => None
+      end
+    else None
+  | TFunction name :: args =>
+    match rev args with
+    | TCloseRound :: rargs =>
+      if is_ascii_str name s_rgb then
+        match rev rargs with
+        | [TNumber r; TComma; TNumber g; TComma; TNumber b] =>
+          match parse_u8_dec r, parse_u8_dec g, parse_u8_dec b with
+          | Some r', Some g', Some b' => Some (r', g', b')
+          | _, _, _ => None
+          end
+        | _ => None
+        end
+      else None
+    | _ => None
+    end
+  | _ => None
+  end.
+
+Definition is_comma (k : token) : bool := match k with TComma => true | _ => false end.
+(* value.tokens.rsplit(|t| t == Comma).next(): the tokens after the last comma *)
+Fixpoint after_last_comma (toks : list token) (cur : list token) : list token :=
+  match toks with
+  | [] => rev cur
+  | k :: toks' => if is_comma k then after_last_comma toks' [] else after_last_comma toks' (k :: cur)
+  end.
+
+Definition units : list (list N) :=
+  [[105;110]; [99;109]; [109;109]; [112;116]; [112;99]; [112;120]; [101;109]; [101;120]].
+
+Definition parse_height (toks : list token) : option bool :=
+  match toks with
+  | [TDimension n u] =>
+    match parse_number n with
+    | POk z _ => if existsb (is_ascii_str u) units then Some z else None
+    | _ => None
+    end
+  | [TNumber n] =>
+    match parse_number n with
+    | POk z _ => if z then Some true else None
+    | _ => None
+    end
+  | _ => None
+  end.
+
+Definition s_visible := [118;105;115;105;98;108;101].
+Definition s_hidden := [104;105;100;100;101;110].
+Definition s_scroll := [115;99;114;111;108;108].
+Definition s_auto := [97;117;116;111].
+Definition s_none := [110;111;110;101].
+Definition s_normal := [110;111;114;109;97;108].
+Definition s_pre := [112;114;101].
+Definition s_pre_wrap := [112;114;101;45;119;114;97;112].
+
+Fixpoint parse_overflow (toks : list token) : option overflow_v :=
+  match toks with
+  | [] => None
+  | TIdent w :: toks' =>
+    if is_ascii_str w s_visible then Some OvVisible
+    else if is_ascii_str w s_hidden then Some OvHidden
+    else if is_ascii_str w s_scroll then Some OvScroll
+    else if is_ascii_str w s_auto then Some OvAuto
+    else parse_overflow toks'
+  | _ :: toks' => parse_overflow toks'
+  end.
+Definition parse_display (toks : list token) : bool :=
+  existsb (fun k => match k with TIdent w => is_ascii_str w s_none | _ => false end) toks.
+Fixpoint parse_white_space (toks : list token) : wsmode :=
+  match toks with
+  | [] => WsNormal
+  | TIdent w :: toks' =>
+    if is_ascii_str w s_normal then WsNormal
+    else if is_ascii_str w s_pre then WsPre
+    else if is_ascii_str w s_pre_wrap then WsPreWrap
+    else parse_white_space toks'
+  | _ :: toks' => parse_white_space toks'
+  end.
+Fixpoint parse_content (toks : list token) : option text :=
+  match toks with
+  | [] => Some []
+  | TString w :: toks' => match parse_content toks' with Some r => Some (w ++ r) | None => None end
+  | _ => None
+  end.
+
+Definition p_background_color := [98;97;99;107;103;114;111;117;110;100;45;99;111;108;111;114].
+Definition p_background := [98;97;99;107;103;114;111;117;110;100].
+Definition p_color := [99;111;108;111;114].
+Definition p_height := [104;101;105;103;104;116].
+Definition p_max_height := [109;97;120;45;104;101;105;103;104;116].
+Definition p_overflow := [111;118;101;114;102;108;111;119].
+Definition p_overflow_y := [111;118;101;114;102;108;111;119;45;121].
+Definition p_display := [100;105;115;112;108;97;121].
+Definition p_white_space := [119;104;105;116;101;45;115;112;97;99;101].
+Definition p_content := [99;111;110;116;101;110;116].
+
+Definition decl_of (prop : text) (toks : list token) : decl :=
+  let is := is_ascii_str prop in
+  if is p_background_color then
+    match parse_color toks with Some (r, g, b) => DBackgroundColor r g b | None => DUnknown end
+  else if is p_background then
+    match parse_color (after_last_comma toks []) with
+    | Some (r, g, b) => DBackgroundColor r g b | None => DUnknown end
+  else if is p_color then
+    match parse_color toks with Some (r, g, b) => DColor r g b | None => DUnknown end
+  else if is p_height then
+    match parse_height toks with Some z => DHeight z | None => DUnknown end
+  else if is p_max_height then
+    match parse_height toks with Some z => DMaxHeight z | None => DUnknown end
+  else if is p_overflow then
+    match parse_overflow toks with Some v => DOverflow v | None => DUnknown end
+  else if is p_overflow_y then
+    match parse_overflow toks with Some v => DOverflowY v | None => DUnknown end
+  else if is p_display then DDisplay (parse_display toks)
+  else if is p_white_space then DWhiteSpace (parse_white_space toks)
+  else if is p_content then
+    match parse_content toks with Some t => DContent t | None => DUnknown end
+  else DUnknown.
+
+Definition parse_declaration (t : text) : pr declaration :=
+  pdo (prop, r1) <- parse_ident t;
+  let r2 := skip_ws r1 in
+  pdo (_, r3) <- ptag [58] r2;
+  let r4 := skip_ws r3 in
+  pdo (v, r5) <- parse_value r4;
+  POk (mkdecl (decl_of prop (fst v)) (snd v)) r5.
+
+Definition semi_sep (t : text) : pr unit :=
+  pdo (_, r) <- ptag [59] t; POk tt (skip_ws r).
+Definition parse_rules (t : text) : pr (list declaration) :=
+  separated_list0 semi_sep parse_declaration t.
+
+(* ---------- selectors ---------- *)
+Definition parse_class (t : text) : pr comp :=
+  pdo (_, r) <- ptag [46] t;
+  pdo (name, r2) <- parse_ident r;
+  POk (CClass name) r2.
+
+Definition opt_sign (t : text) : Z * text :=
+  match t with
+  | c :: t' => if cp c =? 45 then ((-1)%Z, t') else if cp c =? 43 then (1%Z, t') else (1%Z, t)
+  | [] => (1%Z, t)
+  end.
+Definition sign (t : text) : pr Z :=
+  match t with
+  | c :: t' => if cp c =? 45 then POk (-1)%Z t' else if cp c =? 43 then POk 1%Z t' else PFail
+  | [] => PFail
+  end.
+(* <i32 as FromStr>::from_str(digits).unwrap() *)
+Definition i32_of_digits (d : text) : option Z :=
+  match parse_digits d 0 with
+  | Some n => if n <=? 2147483647 then Some (Z.of_N n) else None
+  | None => None
+  end.
+
+Definition s_even := [101;118;101;110].
+Definition s_odd := [111;100;100].
+
+Definition nth_full (t : text) : pr (Z * Z) :=
+  let '(a_sign, r1) := opt_sign t in
+  pdo (a_opt, r2) <- popt (digit1 r1 []) r1;
+  pdo (_, r3) <- ptag [110] r2;
+  let r4 := skip_ws r3 in
+  pdo (b_sign, r5) <- sign r4;
+  pdo (b_val, r6) <- digit1 r5 [];
+  match (match a_opt with Some d => i32_of_digits d | None => Some 1%Z end), i32_of_digits b_val with
+  | Some a, Some b => POk ((a * a_sign)%Z, (b * b_sign)%Z) r6
+  | _, _ => PPanic 50
+  end.
+Definition nth_a_only (t : text) : pr (Z * Z) :=
+  let '(a_sign, r1) := opt_sign t in
+  pdo (a_opt, r2) <- popt (digit1 r1 []) r1;
+  pdo (_, r3) <- ptag [110] r2;
+  match (match a_opt with Some d => i32_of_digits d | None => Some 1%Z end) with
+  | Some a => POk ((a * a_sign)%Z, 0%Z) r3
+  | None => PPanic 50
+  end.
+Definition nth_b_only (t : text) : pr (Z * Z) :=
+  let '(b_sign, r1) := opt_sign t in
+  pdo (b_val, r2) <- digit1 r1 [];
+  match i32_of_digits b_val with
+  | Some b => POk (0%Z, (b * b_sign)%Z) r2
+  | None => PPanic 50
+  end.
+
+Definition parse_nth_child_args (t : text) : pr comp :=
+  pdo (_, r0) <- ptag [40] t;
+  let r1 := skip_ws r0 in
+  pdo (ab, r2) <-
+     palt (pmap (fun _ => (2%Z, 0%Z)) (ptag s_even r1)) (fun _ =>
+     palt (pmap (fun _ => (2%Z, 1%Z)) (ptag s_odd r1)) (fun _ =>
+     palt (nth_full r1) (fun _ =>
+     palt (nth_a_only r1) (fun _ => nth_b_only r1))));
+  let r3 := skip_ws r2 in
+  pdo (_, r4) <- ptag [41] r3;
+  POk (CNthChild (fst ab) (snd ab)) r4.
+
+Definition s_nth_child := [110;116;104;45;99;104;105;108;100].
+Definition parse_pseudo_class (t : text) : pr comp :=
+  pdo (_, r) <- ptag [58] t;
+  pdo (name, r2) <- parse_ident r;
+  if is_ascii_str name s_nth_child then parse_nth_child_args r2 else PFail.
+
+Definition parse_hash (t : text) : pr comp :=
+  pdo (_, r) <- ptag [35] t;
+  pdo (w, r2) <- parse_identstring r;
+  POk (CHash w) r2.
+
+Definition parse_ws (t : text) : pr unit := pmap (fun _ => tt) (many1 match_whitespace_item t).
+
+Definition parse_simple_selector_component (t : text) : pr comp :=
+  palt (pdo (_, r) <- ptag [62] (skip_ws t); POk CCombChild (skip_ws r)) (fun _ =>
+  palt (pdo (_, r) <- ptag [42] (skip_ws t); POk CStar (skip_ws r)) (fun _ =>
+  palt (pmap (fun _ => CCombDescendant) (parse_ws t)) (fun _ =>
+  palt (parse_class t) (fun _ =>
+  palt (parse_hash t) (fun _ =>
+  palt (pmap CElement (parse_ident t)) (fun _ =>
+  parse_pseudo_class t)))))).
+
+Definition parse_selector_with_element (t : text) : pr (list comp) :=
+  pdo (ident, r) <- parse_ident t;
+  pdo (extras, r2) <- many0 parse_simple_selector_component r;
+  POk (CElement ident :: extras) r2.
+Definition parse_selector_without_element (t : text) : pr (list comp) :=
+  many1 parse_simple_selector_component t.
+
+Definition parse_pseudo_element (t : text) : option pseudo * text :=
+  match starts_with [58;58;98;101;102;111;114;101] t with
+  | Some r => (Some PBefore, r)
+  | None => match starts_with [58;58;97;102;116;101;114] t with
+            | Some r => (Some PAfter, r)
+            | None => (None, t)
+            end
+  end.
+
+Definition is_desc (c : comp) : bool := match c with CCombDescendant => true | _ => false end.
+Definition pop_desc (l : list comp) : list comp :=
+  match olast l with Some c => if is_desc c then removelast l else l | None => l end.
+
+Definition parse_selector (t : text) : pr selector :=
+  pdo (cs, rest) <- palt (parse_selector_with_element t)
+                         (fun _ => parse_selector_without_element t);
+  let cs1 := pop_desc cs in
+  let cs2 := pop_desc (rev cs1) in
+  let '(pe, rest') := parse_pseudo_element rest in
+  POk (mksel cs2 pe) rest'.
+
+Record cssruleset := mkcrs { crs_selectors : list selector; crs_decls : list declaration }.
+
+Definition comma_sep (t : text) : pr unit :=
+  pdo (_, r) <- ptag [44] t; POk tt (skip_ws r).
+
+Definition parse_ruleset (t : text) : pr cssruleset :=
+  let r0 := skip_ws t in
+  pdo (sels, r1) <- separated_list0 comma_sep parse_selector r0;
+  let r2 := skip_ws r1 in
+  pdo (_, r3) <- ptag [123] r2;
+  let r4 := skip_ws r3 in
+  pdo (decls, r5) <- parse_rules r4;
+  let r6 := skip_ws r5 in
+  pdo (_semi, r7) <- popt (ptag [59] r6) r6;
+  let r8 := skip_ws r7 in
+  pdo (_, r9) <- ptag [125] r8;
+  POk (mkcrs sels decls) (skip_ws r9).
+
+(* skip_to_end_of_statement; closing-bracket kinds: 0 ) 1 --> 2 ] 3 } *)
+Definition closer_kind (k : token) : option N :=
+  match k with
+  | TCloseRound => Some 0 | TCDC => Some 1 | TCloseSquare => Some 2 | TCloseBrace => Some 3
+  | _ => None
+  end.
+Fixpoint skip_stmt (fuel : nat) (t : text) (stack : list N) : pr unit :=
+  match fuel with
+  | O => PFuel
+  | S f =>
+    match parse_token t with
+    | PFail => POk tt t
+    | PPanic s => PPanic s
+    | PFuel => PFuel
+    | POk tok remain =>
+      match tok with
+      | TFunction _ | TOpenRound => skip_stmt f remain (0 :: stack)
+      | TCDO => skip_stmt f remain (1 :: stack)
+      | TOpenSquare => skip_stmt f remain (2 :: stack)
+      | TOpenBrace => skip_stmt f remain (3 :: stack)
+      | TSemicolon => match stack with [] => POk tt remain | _ => skip_stmt f remain stack end
+      | TCDC | TCloseSquare | TCloseRound | TCloseBrace =>
+        match stack, closer_kind tok with
+        | [], Some 3 => POk tt t              (* do not include the closing brace *)
+        | top_ :: stack', Some k =>
+          if top_ =? k then
+            if (k =? 3) && match stack' with [] => true | _ => false end
+            then POk tt remain
+            else skip_stmt f remain stack'
+          else PFail
+        | [], _ => PFail
+        | _, None => PFail
+        end
+      | _ => skip_stmt f remain stack
+      end
+    end
+  end.
+Definition skip_to_end_of_statement (t : text) : pr unit := skip_stmt (S (length t)) t [].
+
+Definition parse_at_rule (t : text) : pr unit :=
+  pdo (_, r1) <- ptag [64] (skip_ws t);
+  pdo (_, r2) <- parse_ident (skip_ws r1);
+  skip_to_end_of_statement r2.
+
+Definition parse_statement (t : text) : pr (option cssruleset) :=
+  palt (pmap Some (parse_ruleset t)) (fun _ => pmap (fun _ => None) (parse_at_rule t)).
+
+Definition parse_stylesheet (t : text) : pr (list cssruleset) :=
+  pdo (items, rest) <- many0 parse_statement t;
+  POk (flat_map (fun o => match o with Some r => [r] | None => [] end) items) rest.
+
+(* ---------- css.rs glue ---------- *)
+Definition is_hidden_ov (v : overflow_v) : bool := match v with OvHidden => true | _ => false end.
+
+Fixpoint styles_loop (decls : list declaration) (acc : list styledecl) (ovh hz : bool)
+  : list styledecl :=
+  match decls with
+  | [] => if hz && ovh then acc ++ [mksd SDisplayNone false] else acc
+  | d :: decls' =>
+    let imp := d_important d in
+    match d_data d with
+    | DColor r g b => styles_loop decls' (acc ++ [mksd (SColour r g b) imp]) ovh hz
+    | DBackgroundColor r g b => styles_loop decls' (acc ++ [mksd (SBgColour r g b) imp]) ovh hz
+    | DHeight z | DMaxHeight z => styles_loop decls' acc ovh (hz || z)
+    | DOverflow v | DOverflowY v => styles_loop decls' acc (ovh || is_hidden_ov v) hz
+    | DDisplay true => styles_loop decls' (acc ++ [mksd SDisplayNone imp]) ovh hz
+    | DDisplay false => styles_loop decls' acc ovh hz
+    | DWhiteSpace m => styles_loop decls' (acc ++ [mksd (SWhiteSpace m) imp]) ovh hz
+    | DContent t => styles_loop decls' (acc ++ [mksd (SContent t) imp]) ovh hz
+    | DUnknown => styles_loop decls' acc ovh hz
+    end
+  end.
+Definition styles_from_properties (decls : list declaration) : list styledecl :=
+  styles_loop decls [] false false.
 
 Inductive cssres (A : Type) := CssOk (a : A) | CssErr | CssPanic (site : N) | CssFuel.
 Arguments CssOk {A}. Arguments CssErr {A}. Arguments CssPanic {A}. Arguments CssFuel {A}.
 
-Definition parse_css_rules (css : text) : cssres (list ruleset) := CssOk [].
-Definition inline_styles (attrs : list (text * text)) : res (list style) := Ok [].
-Definition doc_rules (doc : list node) : res (list ruleset) := Ok [].
+(* StyleData::do_add_css *)
+Definition parse_css_rules (css : text) : cssres (list ruleset) :=
+  match parse_stylesheet css with
+  | POk ss _ =>
+    CssOk (flat_map (fun r =>
+                       let styles := styles_from_properties (crs_decls r) in
+                       match styles with
+                       | [] => []
+                       | _ => map (fun sel => mkrs sel styles) (crs_selectors r)
+                       end) ss)
+  | PFail => CssErr
+  | PPanic s => CssPanic s
+  | PFuel => CssFuel
+  end.
+
+(* parse_style_attribute(..).unwrap_or_default() *)
+Definition parse_style_attribute (t : text) : res (list styledecl) :=
+  match parse_rules t with
+  | POk decls _ => Ok (styles_from_properties decls)
+  | PFail => Ok []
+  | PPanic s => Panic s
+  | PFuel => OutOfFuel
+  end.
+
+(* text.get(a..b) on bytes: None when out of range or not on a char boundary *)
+Fixpoint byte_drop (t : text) (n : N) : option text :=
+  if n =? 0 then Some t else
+  match t with
+  | [] => None
+  | c :: t' => let l := utf8_len1 (cp c) in if l <=? n then byte_drop t' (n - l) else None
+  end.
+Fixpoint byte_take (t : text) (n : N) : option text :=
+  if n =? 0 then Some [] else
+  match t with
+  | [] => None
+  | c :: t' => let l := utf8_len1 (cp c) in
+               if l <=? n then match byte_take t' (n - l) with Some r => Some (c :: r) | None => None end
+               else None
+  end.
+Definition byte_slice (t : text) (a b : N) : option text :=
+  match byte_drop t a with Some r => byte_take r (b - a) | None => None end.
+Definition parse_color_part (t : text) (a b : N) : option N :=
+  match byte_slice t a b with Some sl => parse_hex 255 sl | None => None end.
+
+Definition parse_color_attribute (t : text) : res (option (N * N * N)) :=
+  match parse_value t with
+  | POk v _ =>
+    match parse_color (fst v) with
+    | Some c => Ok (Some c)
+    | None =>
+      let tt_ := trim t in
+      match parse_color_part tt_ 0 2, parse_color_part tt_ 2 4, parse_color_part tt_ 4 6 with
+      | Some r, Some g, Some b => Ok (Some (r, g, b))
+      | _, _, _ => Ok None
+      end
+    end
+  | PFail => Ok None
+  | PPanic s => Panic s
+  | PFuel => OutOfFuel
+  end.
+
+Definition s_style : list N := [115;116;121;108;101].
+Definition s_colorattr : list N := [99;111;108;111;114].
+Definition s_bgcolor : list N := [98;103;99;111;108;111;114].
+
+Fixpoint inline_styles (attrs : list (text * text)) : res (list styledecl) :=
+  match attrs with
+  | [] => Ok []
+  | (k, v) :: attrs' =>
+    do here <-
+       (if attr_is k s_style then parse_style_attribute v
+        else if attr_is k s_colorattr then
+          do c <- parse_color_attribute v;
+          Ok (match c with Some (r, g, b) => [mksd (SColour r g b) false] | None => [] end)
+        else if attr_is k s_bgcolor then
+          do c <- parse_color_attribute v;
+          Ok (match c with Some (r, g, b) => [mksd (SBgColour r g b) false] | None => [] end)
+        else Ok []);
+    do rest <- inline_styles attrs';
+    Ok (here ++ rest)
+  end.
+
+(* dom_extract::dom_to_stylesheet: the text of every html <style> element, document order *)
+Fixpoint style_texts (n : node) : list text :=
+  match n with
+  | NElem html name _ kids =>
+    if html && is_ascii_str name s_style
+    then [flat_map (fun k => match k with NText t => t | _ => [] end) kids]
+    else flat_map style_texts kids
+  | _ => []
+  end.
+
+Fixpoint rules_of_texts (l : list text) : res (list ruleset) :=
+  match l with
+  | [] => Ok []
+  | css :: l' =>
+    do here <- (match parse_css_rules css with
+                | CssOk rs => Ok rs
+                | CssErr => Ok []                  (* CSS parse errors are ignored *)
+                | CssPanic s => Panic s
+                | CssFuel => OutOfFuel
+                end);
+    do rest <- rules_of_texts l';
+    Ok (here ++ rest)
+  end.
+Definition doc_rules (doc : list node) : res (list ruleset) :=
+  rules_of_texts (flat_map style_texts doc).
